@@ -360,7 +360,33 @@ impl C14 {
                 }
             }
         }
-        // the whole script through read_command
+        // the whole script through read_command; in the stream a name may be declared again after the scope of its
+        // first declaration was popped (the push/pop emulation of check-sat-assuming does that), with another sort
+        if rng.chance(1, 2) {
+            let (w1, w2) = (*rng.pick(&[1u32, 4, 8]), *rng.pick(&[2u32, 5, 8, 33]));
+            let name = *rng.pick(&["re x", "tmp", "a!1"]);
+            let x1 = ctx.bv_symbol(name, w1);
+            let x2 = if rng.chance(1, 4) { ctx.array_symbol(name, 2, w2) } else { ctx.bv_symbol(name, w2) };
+            let mut phase2 = vec![SmtCommand::Push(1), SmtCommand::DeclareConst(x1)];
+            let z1 = ctx.zero(w1);
+            let c1 = ctx.equal(x1, z1);
+            phase2.push(SmtCommand::Assert(c1));
+            phase2.push(SmtCommand::GetValue(x1));
+            phase2.push(SmtCommand::Pop(1));
+            phase2.push(SmtCommand::DeclareConst(x2));
+            if x2.get_type(ctx).is_bit_vector() {
+                let o2 = ctx.ones(w2);
+                let c2 = ctx.greater_or_equal(o2, x2);
+                phase2.push(SmtCommand::Assert(c2));
+            }
+            phase2.push(SmtCommand::GetValue(x2));
+            for cmd in phase2 {
+                let Ok(text) = cmd_text(ctx, &cmd) else { continue };
+                script.push_str(&text);
+                cmds.push(cmd);
+            }
+            sh.count("scripts_declaring_a_name_again_after_pop", 1);
+        }
         let mut st2: St = Default::default();
         let mut rd = std::io::BufReader::new(script.as_bytes());
         for (k, cmd) in cmds.iter().enumerate() {
@@ -558,7 +584,7 @@ impl Check for C14 {
         "commands_read_back"
     }
     fn rule(&self) -> String {
-        "mode roundtrip: G1 expressions (as in C05, incl. 1-bit/Bool mixtures, arrays, quoted names); every command the writer emits for them (declare-const per symbol, get-value, define-fun, assert, check-sat-assuming with 1 and 2 terms, plus set-logic/set-option/set-info/push/pop/check-sat/get-unsat-assumptions/exit) is read back with parse_command, the bare term with parse_expr, and the whole script with read_command; kinds, symbols and operands must agree, expressions up to equivalence under the reference evaluator (all assignments <= 10 symbol bits, else 8). mode values: G5 model-value texts (widths 1..516 incl. hex spellings of 33 and more digits) in solver spellings (#b/#x, true/false, store chains over (as const ..), let-bound sub-terms a!k, Bool-indexed and Bool-valued arrays, line breaks) with their denotation; parse_expr must give exactly that value; 6 truncated/unbalanced variants each (proper prefixes, one parenthesis deleted or inserted) must give an error or, when the edit leaves a well-formed text, not a wrong value - and never panic. mode lets: G5b terms over declared constants a, b (bit-vectors of width 2/3/8/33) and m (array) with nested let scopes: single and parallel binding lists, bindings of arrays and bit-vectors, binder names that shadow outer lets or the declared constants a/b/m (also with another sort), quoted binder names, names used again after their scope has closed (then denoting the declared constant, or nothing at all); the R6 front end decides well-formedness and gives the value under 4 random models: a well-formed term must be read as an expression with that value, an ill-scoped one must be an error, never a panic. distinct_nontrivial = distinct value and let texts read correctly.".into()
+        "mode roundtrip: G1 expressions (as in C05, incl. 1-bit/Bool mixtures, arrays, quoted names); every command the writer emits for them (declare-const per symbol, get-value, define-fun, assert, check-sat-assuming with 1 and 2 terms, plus set-logic/set-option/set-info/push/pop/check-sat/get-unsat-assumptions/exit) is read back with parse_command, the bare term with parse_expr, and the whole script with read_command (half of the scripts go on to declare a name again with another sort after the scope of its first declaration was popped); kinds, symbols and operands must agree, expressions up to equivalence under the reference evaluator (all assignments <= 10 symbol bits, else 8). mode values: G5 model-value texts (widths 1..516 incl. hex spellings of 33 and more digits) in solver spellings (#b/#x, true/false, store chains over (as const ..), let-bound sub-terms a!k, Bool-indexed and Bool-valued arrays, line breaks) with their denotation; parse_expr must give exactly that value; 6 truncated/unbalanced variants each (proper prefixes, one parenthesis deleted or inserted) must give an error or, when the edit leaves a well-formed text, not a wrong value - and never panic. mode lets: G5b terms over declared constants a, b (bit-vectors of width 2/3/8/33) and m (array) with nested let scopes: single and parallel binding lists, bindings of arrays and bit-vectors, binder names that shadow outer lets or the declared constants a/b/m (also with another sort), quoted binder names, names used again after their scope has closed (then denoting the declared constant, or nothing at all); the R6 front end decides well-formedness and gives the value under 4 random models: a well-formed term must be read as an expression with that value, an ill-scoped one must be an error, never a panic. distinct_nontrivial = distinct value and let texts read correctly.".into()
     }
     fn assumptions(&self) -> Vec<String> {
         vec!["the get-value response reader is exercised through parse_expr here (same term parser) and through SolverContext::get_value against the reference solver in C02/C03".into()]
